@@ -87,6 +87,9 @@ def module_of(path, src_root):
     return '::'.join(parts)
 
 
+FIELD_TYPES = {}
+
+
 def scan(src_root):
     """Return (enums, structs).
     enums:   qualified name -> list of (variant_name, discriminant_value, n_fields, field_names|None)
@@ -137,9 +140,10 @@ def scan(src_root):
                     fl = [_strip_attrs(x) for x in _split_top(src[m.end():j])]
                     names = []
                     for x in fl:
-                        mm = re.match(r'^(?:pub(?:\([^)]*\))?\s+)?(\w+)\s*:', x)
+                        mm = re.match(r'^(?:pub(?:\([^)]*\))?\s+)?(\w+)\s*:\s*(.*)$', x, re.S)
                         if mm:
                             names.append(mm.group(1))
+                            FIELD_TYPES[(q, mm.group(1))] = ' '.join(mm.group(2).split())
                     structs[q] = names
                 else:
                     depth, j = 0, m.end() - 1
